@@ -6,7 +6,7 @@ from common import canon_errors
 from props import _vfamily
 
 LEVEL = "proof"
-COQ_FILES = ['theories/Model/Validate.v', 'theories/Proofs/PathProofs.v', 'theories/Proofs/LocProofs.v', 'theories/Proofs/DefProofs.v', 'theories/Properties/C12.v']
+COQ_FILES = ['theories/Model/Validate.v', 'theories/Proofs/PathProofs.v', 'theories/Proofs/LocProofs.v', 'theories/Proofs/DefProofs.v', 'theories/Proofs/SpProofs.v', 'theories/Properties/C12.v']
 FACT_GROUPS = ["F6", "F8"]
 ALLOWED_AXIOMS = []
 TRUSTED_BASE = _vfamily.BASE_TRUSTED
